@@ -4,7 +4,7 @@ import autoray as ar
 
 from .abelian_core import AbelianArray, BlockIndex
 from .block_core import BlockVector
-from .fermionic_core import FermionicArray
+from .fermionic_core import FermionicArray, oddpos_dag, resolve_oddpos
 from .utils import DEBUG
 
 
@@ -496,5 +496,16 @@ def solve_fermionic(a, b):
     if x.indices[0].dual:
         # inner index is like |x><x| so introduce a phase flip
         x.phase_flip(0, inplace=True)
+
+    if a.oddpos:
+        # odd parity matrix: the solution carries the conjugate of its oddpos
+        # followed by those of `b`, with the global phase such that `a @ x`
+        # resolves back to (the oddpos and phase of) `b`
+        x._oddpos, _ = resolve_oddpos(
+            oddpos_dag(a.oddpos), b.oddpos, a.parity
+        )
+        _, phase = resolve_oddpos(a.oddpos, x.oddpos, a.parity)
+        if phase == -1:
+            x.phase_global(inplace=True)
 
     return x
